@@ -63,9 +63,12 @@ Definition base_list (l : list val) : jv := JList (map (fun v => JAtom (to_base 
 Definition base_dict (d : dict) : jv :=
   JDict (of_pairs (map (fun kv => (to_base (fst kv), base_list (snd kv))) d)).
 
-(* json_serialize_values_orders, before dumps *)
+(* json_serialize_values_orders, before dumps.  The content is written in LIST order:
+   `{key: order.get(key) for key in order}` (repair "values_orders are serialised with the
+   content in the order of the list"); a leader missing from content is written with []. *)
 Definition serialize_feature (g : gl) : jv :=
-  JDict [(VStr "order", base_list (keys g)); (VStr "content", base_dict (content g))].
+  JDict [(VStr "order", base_list (keys g));
+         (VStr "content", base_dict (dict_of_keys (keys g) (get g)))].
 
 Definition serialize_vo (vo : list (val * gl)) : jv :=
   JDict (of_pairs (map (fun fg => (fst fg, serialize_feature (snd fg))) vo)).
@@ -195,9 +198,16 @@ Record ojson := mkJson {
   j_meta : jv;
   j_history : option jv }.
 
+(* BaseDiscretizer.to_json adds "_history" whenever the attribute is not None (repair "a carver
+   reloaded with load_carver keeps its history when serialised again"); BaseCarver.to_json always
+   writes it *)
+Definition hist_entry (h : jv) : option jv := match h with JNone => None | _ => Some h end.
+
+Definition to_json_history (s : state) : option jv :=
+  match st_class s with KCarver => Some (st_history s) | KDiscretizer => hist_entry (st_history s) end.
+
 Definition to_json (jk : val -> string) (s : state) : ojson :=
-  mkJson (st_features s) (vo_text jk (st_vo s)) (st_meta s)
-         (match st_class s with KCarver => Some (st_history s) | KDiscretizer => None end).
+  mkJson (st_features s) (vo_text jk (st_vo s)) (st_meta s) (to_json_history s).
 
 (* json.loads(json.dumps(to_json())) : the values_orders text is a string, unchanged *)
 Definition file_trip (jk : val -> string) (j : ojson) : ojson :=
@@ -217,7 +227,8 @@ Definition load_discretizer (ps : val -> string) (j : ojson) : res state :=
   end.
 
 (* load_carver: pops "_history", loads a BaseDiscretizer, re-attaches the history attribute.
-   The object is a BaseDiscretizer: its to_json() has no "_history" (observation O6). *)
+   The object is a BaseDiscretizer carrying the already serialised history: its to_json() writes
+   it again (observation O6, repaired). *)
 Definition load_carver (ps : val -> string) (j : ojson) : res state :=
   do s <- load_discretizer ps (mkJson (j_features j) (j_vo j) (j_meta j) None) ;
   Ok (mkState KDiscretizer (st_features s) (st_vo s) (st_meta s)
